@@ -42,3 +42,8 @@ claim("C18", "DESIGN.md 5 C18, A.7",
  "Seeded search over histories of {message received, pong for the current ping, late pong for a superseded ping, tick at time t} with tick spacings aimed at the period boundary (exactly the period, +-1 ns), several ticks per period, late ticks, +300 s jumps and stale 'now' values on a fake clock, for the real inactivity monitor and keep-alive wired through options.WithInactivityMonitor / WithKeepAlive on a real client connection (UDP, DTLS shim, TCP, TLS shim). After every tick the connection state and the pings on the wire are compared with a reference model (last receive time, consecutive detections). Evidence, not proof.",
  "Trusts the 40-line reference model and the harness codec; client-side connections only in this scenario (server-side tick paths run in C10's scenarios); a late pong for a superseded ping is accepted as reset or not.",
  "deterministic simulation: seeded history/time search with monitor reference model checked at every tick")
+
+claim("C11", "DESIGN.md 5 C11",
+ "Seeded search over interleavings of message arrival with handlers that return at once or block in a nested operation on the same connection (request, observe registration, observation cancel, ping, confirmable one-way write; nesting depth grows with the number of blocked handlers), receive-queue sizes 0/1/16, all four transports, duplicates of a request that is still inside its handler, park points inside the reader-loop replacement protocol, and connection close at any point. Dispatch counts, order (when nothing blocked) and 'a nested operation returns at the quiescent point after its answer was delivered' are checked. Evidence, not proof.",
+ "Reader-loop replacement makes most runs racy (two loops, multi-ready selects): oracles accept every runtime choice, replay of a racy violation retries up to 8 times; completeness is only demanded when the connection stays open.",
+ "deterministic simulation: seeded arrival/answer/park schedule search with exactly-once and progress-while-nested oracles")
